@@ -198,11 +198,13 @@ def marked(v, i, state):
 
 
 def prune_targets(v, state):
-    """the elements ExperimentTopology.prune documents as its scope: non-facility nodes, their components,
-    services, and the interfaces of services (sub-interfaces and facilities are never visited)"""
+    """the elements ExperimentTopology.prune documents as its scope ("any elements with reservation_info.reservation_state
+    matching"): nodes, their components, services, the interfaces of services and their sub-interfaces.  Facility nodes
+    count only once the running library visits them (proposed_fixes/C08-9); before that a marked facility that
+    survives is reported by judge as the finding prune-skips-marked-facility"""
     t = set()
     for n in v.of_class('NetworkNode'):
-        if v.typ(n) == 'Facility':
+        if v.typ(n) == 'Facility' and not prune_visits_facilities():
             continue
         if marked(v, n, state):
             t.add(n)
@@ -218,6 +220,10 @@ def prune_targets(v, state):
     # per the contract "any elements with the matching reservation state": the sub-interfaces of those interfaces too
     # (the code before proposed_fixes/C08-8 does not visit them: finding prune-skips-marked-subinterface)
     return t | marked_subinterfaces(v, state)
+
+
+def marked_facilities(v, state):
+    return {n for n in v.of_class('NetworkNode') if v.typ(n) == 'Facility' and marked(v, n, state)}
 
 
 def marked_subinterfaces(v, state):
@@ -331,6 +337,18 @@ def frame_violation(pre, post):
 _PATHLESS = []
 _PRUNE_SKIPS = []
 _PRUNE_SUBS = []
+_PRUNE_FACS = []
+
+
+def prune_visits_facilities():
+    # does the RUNNING library's prune also collect Facility nodes (which Topology.nodes leaves out) and remove them
+    # with remove_facility (proposed_fixes/C08-9)?  Selects the transcription OPrune9.
+    if not _PRUNE_FACS:
+        import inspect
+        from fim.user.topology import ExperimentTopology
+        _PRUNE_FACS.append('facilities' in inspect.getsource(ExperimentTopology.prune)
+                           and 'remove_facility' in inspect.getsource(ExperimentTopology._prune_node))
+    return _PRUNE_FACS[0]
 
 
 def prune_visits_subinterfaces():
@@ -529,7 +547,8 @@ class Removals(Stream):
         elif k == 'remove_child':
             t = 'ORemoveChild %d %d' % (ids[o['hids'][0]], nm(op[2]))
         else:
-            t = 'OPrune8' if prune_visits_subinterfaces() else ('OPrune7' if prune_skips_gone() else 'OPrune')
+            t = ('OPrune9' if prune_visits_facilities() and prune_visits_subinterfaces() else
+                 'OPrune8' if prune_visits_subinterfaces() else ('OPrune7' if prune_skips_gone() else 'OPrune'))
         cached = k in ('disconnect', 'unpeer', 'remove_interface', 'remove_child')
 
         def cl(lists):
@@ -592,6 +611,11 @@ class Removals(Stream):
             if rest:
                 bad.append(('not-deleted op=%s%s' % (k, (' ' + note.replace(' ', '-')) if note else ''),
                             'owned elements or artefacts left behind: %s' % [(v.cls(i), v.name(i)) for i in rest]))
+        if k == 'prune' and o['outcome'] == 'ok' and not prune_visits_facilities():
+            left = sorted(i for i in marked_facilities(v, op[1]) if i not in removed)
+            if left:
+                bad.append(('prune-skips-marked-facility',
+                            'facility nodes in the pruned state survive prune: %s' % [v.name(i) for i in left]))
         # the link equation (Coq: C08_link_deleted_iff), on the implementation's own before/after: a link is deleted iff it
         # had >= 2 ends, lost >= 1 and <= 1 survives - in states where no link has two ends in one port family
         if k != 'remove_link' and not family_conflict(v):
